@@ -471,7 +471,39 @@ def r17_5(chk):
     chk.floor("R17.5", 2, "GffAnnotationDb.__init__ and _db_from_gff")
 
 
+def r17_6(chk):
+    chk.rule("R17.6", "each identifier is stored once however the file is cut into blocks: in _db_from_gff the rows of an identifier already stored by an earlier block are merged into the existing record (update_record_spans) AND taken out of the block (pop / del / a filtered dict) before the block is handed to add_records -- otherwise they become a second record holding part of the spans")
+    from ..cfg import build
+
+    m = chk.repo.module(DB)
+    fn = m.func("_db_from_gff")
+    g = build(fn)
+    adds = g.nodes_containing(lambda x: isinstance(x, ast.Call) and isinstance(x.func, ast.Attribute) and x.func.attr == "add_records")
+    upd = [c for c in walk_no_nested(fn) if isinstance(c, ast.Call) and isinstance(c.func, ast.Attribute) and c.func.attr == "update_record_spans"]
+    if not adds or not upd:
+        raise AnalysisError("_db_from_gff: add_records / update_record_spans calls not found")
+    add_call = [c for e in __import__("c3static.cfg", fromlist=["own_exprs"]).own_exprs(adds[0]) for c in ast.walk(e) if isinstance(c, ast.Call) and isinstance(c.func, ast.Attribute) and c.func.attr == "add_records"][0]
+    block = norm(add_call.args[0]) if add_call.args else None
+    # the loop over the already-seen names
+    loops = [lp for lp in walk_no_nested(fn) if isinstance(lp, ast.For) and any(u is x for b in lp.body for x in ast.walk(b) for u in upd)]
+    removed = False
+    for lp in loops:
+        var = norm(lp.target)
+        for x in ast.walk(lp):
+            if isinstance(x, ast.Call) and isinstance(x.func, ast.Attribute) and x.func.attr == "pop" and norm(x.func.value) == block and x.args and norm(x.args[0]) == var:
+                removed = True
+            if isinstance(x, ast.Delete) and any(norm(t) == f"{block}[{var}]" for t in x.targets):
+                removed = True
+    # or: the block is rebuilt without the seen names before add_records
+    for st in walk_no_nested(fn):
+        if isinstance(st, ast.Assign) and norm(st.targets[0]) == block and isinstance(st.value, ast.DictComp) and any("not in" in norm(i) for gcomp in st.value.generators for i in gcomp.ifs):
+            removed = True
+    chk.decide(removed, "R17.6", key(m, "_db_from_gff", "rows merged into an existing record leave the block"), m.loc(add_call), f"`{block}.pop(name)` (or del / filter) for every identifier already stored", f"`{norm(add_call)}` still contains the rows of identifiers whose spans were just merged into their existing record: with the file cut into blocks (lines_per_block) such a feature is returned twice, the second copy denoting only part of its residues")
+    chk.floor("R17.6", 1, "one loader")
+
+
 def run(chk):
+    r17_6(chk)
     r17_5(chk)
     r17_1(chk)
     r17_2(chk)
